@@ -152,21 +152,22 @@ theorem i64_ofNat_succ (n : Nat) : Int64.ofNat n + 1 = Int64.ofNat (n + 1) := by
   have := i64_ofNat_succ_sub_one n
   rw [← this, i64_sub_add_one]
 
-macro "sm_simp" : tactic => `(tactic| simp only [SM.exec_bind, SM.exec_andThen, SM.exec_orElse, SM.exec_groups, SM.exec_data,
+macro "sm_simp" : tactic => `(tactic| try simp only [SM.exec_bind, SM.exec_andThen, SM.exec_orElse, SM.exec_groups, SM.exec_data,
   SM.exec_shrinks, SM.exec_pure, SM.exec_ofM, SM.exec_fuel, Res.bindE_ok, Res.bindE_error, Res.bindE_stop, Script.exec_bind',
   Script.exec_getV, Script.exec_pure, Script.exec_orOob_some, Script.exec_orOob_none, Res.bind_done, Res.bind_oob, Res.bind_stop,
   ↓reduceIte, Bool.false_eq_true])
 
 theorem tr_removeGroups_loop {σ : Type} (o : Oracle σ) (wf : o.WF) :
-    ∀ (fuel i : Nat) (s : σ), i ≤ 2 ^ 61 →
+    ∀ (fuel fm i : Nat) (s : σ), fuel ≤ fm → i ≤ 2 ^ 61 →
       Agree (fun _ _ => True)
         (SM.exec o (Translated.shrinker_removeGroups_loop1 fuel (Int64.ofNat i)) s)
-        ((removeGroups fuel i).exec o s) := by
+        ((removeGroups fm i).exec o s) := by
   intro fuel
   induction fuel with
-  | zero => intro i s _; simp [Translated.shrinker_removeGroups_loop1, Agree]
+  | zero => intro fm i s _ _; simp [Translated.shrinker_removeGroups_loop1, Agree]
   | succ fuel ih =>
-    intro i s hi
+    intro fm i s hfm hi
+    obtain ⟨fm', rfl⟩ : ∃ fm', fm = fm' + 1 := ⟨fm - 1, by omega⟩
     obtain ⟨hd, hgl, hgs⟩ := wf.small s
     have hi62 : i < 2 ^ 62 := by omega
     rw [Translated.shrinker_removeGroups_loop1, removeGroups]
@@ -187,7 +188,7 @@ theorem tr_removeGroups_loop {σ : Type} (o : Oracle σ) (wf : o.WF) :
       rw [hst, gio_end_neg g hgS]
       by_cases hskip : (!g.standalone || decide (g.end_ < 0)) = true
       · simp only [hskip, if_true, i64_ofNat_succ]
-        exact ih (i + 1) s (by omega)
+        exact ih fm' (i + 1) s (by omega) (by omega)
       · simp only [hskip, Bool.false_eq_true, if_false]
         have h0 : 0 ≤ g.end_ := by
           simp only [Bool.or_eq_true, Bool.not_eq_true', decide_eq_true_eq, not_or] at hskip
@@ -207,11 +208,11 @@ theorem tr_removeGroups_loop {σ : Type} (o : Oracle σ) (wf : o.WF) :
             · simp only [Bool.false_eq_true, if_false]
               sm_simp
               rw [i64_ofNat_succ]
-              exact ih (i + 1) s' (by omega)
+              exact ih fm' (i + 1) s' (by omega) (by omega)
             · simp only [if_true]
               sm_simp
               rw [i64_sub_add_one]
-              exact ih i s' hi
+              exact ih fm' i s' (by omega) hi
         · rw [hw]; simp [Agree]
     · simp only [hlt, decide_false, Bool.false_eq_true, if_false]
       sm_simp
@@ -304,15 +305,16 @@ theorem tr_rglInner {σ : Type} (o : Oracle σ) (wf : o.WF) (buf : List UInt64) 
       exact Agree.done s (by simp)
 
 theorem tr_removeGroupsAndLower_loop {σ : Type} (o : Oracle σ) (wf : o.WF) :
-    ∀ (fuel i : Nat) (s : σ), i < 2 ^ 62 →
+    ∀ (fuel fm i : Nat) (s : σ), fuel ≤ fm → i < 2 ^ 62 →
       Agree (fun _ _ => True)
         (SM.exec o (Translated.shrinker_removeGroupsAndLower_loop1 fuel (Int64.ofNat i)) s)
-        ((removeGroupsAndLower fuel i).exec o s) := by
+        ((removeGroupsAndLower fm i).exec o s) := by
   intro fuel
   induction fuel with
-  | zero => intro i s _; simp [Translated.shrinker_removeGroupsAndLower_loop1, Agree]
+  | zero => intro fm i s _ _; simp [Translated.shrinker_removeGroupsAndLower_loop1, Agree]
   | succ fuel ih =>
-    intro i s hi62
+    intro fm i s hfm hi62
+    obtain ⟨fm', rfl⟩ : ∃ fm', fm = fm' + 1 := ⟨fm - 1, by omega⟩
     obtain ⟨hd, hgl, hgs⟩ := wf.small s
     rw [Translated.shrinker_removeGroupsAndLower_loop1, removeGroupsAndLower]
     sm_simp
@@ -326,7 +328,7 @@ theorem tr_removeGroupsAndLower_loop {σ : Type} (o : Oracle σ) (wf : o.WF) :
       sm_simp
       by_cases hz : (x == 0) = true
       · simp only [hz, if_true, i64_ofNat_succ]
-        exact ih (i + 1) s (by omega)
+        exact ih fm' (i + 1) s (by omega) (by omega)
       · simp only [hz, Bool.false_eq_true, if_false]
         sm_simp
         simp only [List.nil_append, idx_ofNat _ hi62, hx?]
@@ -343,9 +345,9 @@ theorem tr_removeGroupsAndLower_loop {σ : Type} (o : Oracle σ) (wf : o.WF) :
         simp only [htb]
         cases b
         · simp only [Bool.false_eq_true, if_false, i64_ofNat_succ]
-          exact ih (i + 1) s' (by omega)
+          exact ih fm' (i + 1) s' (by omega) (by omega)
         · simp only [if_true, i64_sub_add_one]
-          exact ih i s' hi62
+          exact ih fm' i s' (by omega) hi62
     · simp only [hlt, decide_false, Bool.false_eq_true, if_false]
       sm_simp
       exact Agree.done s trivial
@@ -477,15 +479,16 @@ theorem tr_spansInner {σ : Type} (o : Oracle σ) (wf : o.WF) (i : Nat) :
       exact Agree.done s (by simp)
 
 theorem tr_removeGroupSpans_loop {σ : Type} (o : Oracle σ) (wf : o.WF) :
-    ∀ (fuel i : Nat) (s : σ), i < 2 ^ 62 →
+    ∀ (fuel fm i : Nat) (s : σ), fuel ≤ fm → i < 2 ^ 62 →
       Agree (fun _ _ => True)
         (SM.exec o (Translated.shrinker_removeGroupSpans_loop1 fuel (Int64.ofNat i)) s)
-        ((removeGroupSpans fuel i).exec o s) := by
+        ((removeGroupSpans fm i).exec o s) := by
   intro fuel
   induction fuel with
-  | zero => intro i s _; simp [Translated.shrinker_removeGroupSpans_loop1, Agree]
+  | zero => intro fm i s _ _; simp [Translated.shrinker_removeGroupSpans_loop1, Agree]
   | succ fuel ih =>
-    intro i s hi62
+    intro fm i s hfm hi62
+    obtain ⟨fm', rfl⟩ : ∃ fm', fm = fm' + 1 := ⟨fm - 1, by omega⟩
     obtain ⟨hd, hgl, hgs⟩ := wf.small s
     rw [Translated.shrinker_removeGroupSpans_loop1, removeGroupSpans]
     sm_simp
@@ -504,7 +507,7 @@ theorem tr_removeGroupSpans_loop {σ : Type} (o : Oracle σ) (wf : o.WF) :
       rw [hst, gio_end_neg g hgS]
       by_cases hskip : (!g.standalone || decide (g.end_ < 0)) = true
       · simp only [hskip, if_true, i64_ofNat_succ]
-        exact ih (i + 1) s (by omega)
+        exact ih fm' (i + 1) s (by omega) (by omega)
       · simp only [hskip, Bool.false_eq_true, if_false]
         have h0 : 0 ≤ g.end_ := by
           simp only [Bool.or_eq_true, Bool.not_eq_true', decide_eq_true_eq, not_or] at hskip
@@ -521,10 +524,677 @@ theorem tr_removeGroupSpans_loop {σ : Type} (o : Oracle σ) (wf : o.WF) :
         simp only [htb]
         cases b
         · simp only [Bool.false_eq_true, if_false, i64_ofNat_succ]
-          exact ih (i + 1) s' (by omega)
+          exact ih fm' (i + 1) s' (by omega) (by omega)
         · simp only [if_true, i64_sub_add_one]
-          exact ih i s' hi62
+          exact ih fm' i s' (by omega) hi62
     · simp only [hlt, decide_false]
+      sm_simp
+      exact Agree.done s trivial
+
+/-! ### `lowerFloatHack` -/
+
+theorem I_toInt63 {x : Int} (h1 : -2 ^ 63 ≤ x) (h2 : x < 2 ^ 63) : (I x).toInt = x :=
+  Int64.toInt_ofInt_of_le h1 h2
+
+theorem gio_begin_add (g : GI) (k : Nat) : (Translated.groupInfoOf g).begin + Int64.ofNat k = Int64.ofNat (g.begin + k) := by
+  have : (Translated.groupInfoOf g).begin = Int64.ofNat g.begin := I_nat g.begin
+  rw [this, Int64.ofNat_add]
+
+theorem gio_end_ne_begin7 (g : GI) (hg : g.Small) :
+    ((Translated.groupInfoOf g).end_ != (Translated.groupInfoOf g).begin + (7 : Int64)) = (g.end_ != (g.begin : Int) + 7) := by
+  obtain ⟨hb, h1, h2⟩ := hg
+  have e1 : (Translated.groupInfoOf g).end_ = I g.end_ := rfl
+  have e2 : (Translated.groupInfoOf g).begin + (7 : Int64) = I ((g.begin : Int) + 7) := by
+    have : (7 : Int64) = Int64.ofNat 7 := rfl
+    rw [this, gio_begin_add, ← I_nat]; simp
+  rw [e1, e2]
+  by_cases h : g.end_ = (g.begin : Int) + 7
+  · rw [h]; simp
+  · have : I g.end_ ≠ I ((g.begin : Int) + 7) := by
+      intro e
+      have := congrArg Int64.toInt e
+      rw [I_toInt63 (by omega) (by omega), I_toInt63 (by omega) (by omega)] at this
+      exact h this
+    rw [bne, bne, beq_false_of_ne this, beq_false_of_ne h]
+
+theorem maxU64_eq : (18446744073709551615 : UInt64) = maxU64 := rfl
+
+/-- `buf := copy of data; buf[k] -= 1; buf[j] = MaxUint64 …` as the source does it, against `lowerAt?` -/
+def lowerT (data : List UInt64) (k : Nat) (fill : List Nat) : Go.M (List UInt64) :=
+  (Go.idx data (Int64.ofNat k)) >>= fun e =>
+  (Go.setIdx data (Int64.ofNat k) (fun _ => e - 1)) >>= fun d =>
+  fill.foldlM (fun d j => Go.setIdx d (Int64.ofNat j) (fun _ => (18446744073709551615 : UInt64))) d
+
+theorem foldl_setIdx (fill : List Nat) (hf : ∀ j ∈ fill, j < 2 ^ 62) : ∀ d : List UInt64,
+    fill.foldlM (fun d j => Go.setIdx d (Int64.ofNat j) (fun _ => (18446744073709551615 : UInt64))) d =
+      match fill.foldlM (fun d j => setIdx? d j maxU64) d with | some d' => .ok d' | none => .error .runtime := by
+  induction fill with
+  | nil => intro d; rfl
+  | cons j fill ih =>
+    intro d
+    simp only [List.foldlM_cons]
+    rw [setIdx_const _ (hf j (by simp)), maxU64_eq]
+    cases h : setIdx? d j maxU64 with
+    | none => rfl
+    | some d' =>
+      simp only [bind, Except.bind, Option.bind]
+      exact ih (fun j hj => hf j (by simp [hj])) d'
+
+theorem tr_lowerAt (data : List UInt64) (k : Nat) (fill : List Nat) (hk : k < 2 ^ 62) (hf : ∀ j ∈ fill, j < 2 ^ 62) :
+    lowerT data k fill = match lowerAt? data k fill with | some d => .ok d | none => .error .runtime := by
+  unfold lowerT lowerAt?
+  rw [idx_ofNat _ hk]
+  cases hx : data[k]? with
+  | none => rfl
+  | some x =>
+    simp only [bind, Except.bind]
+    rw [setIdx_const _ hk]
+    cases hs : setIdx? data k (x - 1) with
+    | none => rfl
+    | some d =>
+      simp only [Option.bind]
+      exact foldl_setIdx fill hf d
+
+/-- a successful `lowerAt?` leaves the length alone -/
+theorem lowerAt_length (data : List UInt64) (k : Nat) (fill : List Nat) (d : List UInt64) (h : lowerAt? data k fill = some d) :
+    d.length = data.length ∧ k < data.length := by
+  unfold lowerAt? at h
+  cases hx : data[k]? with
+  | none => rw [hx] at h; cases h
+  | some x =>
+    rw [hx] at h
+    have hk : k < data.length := by
+      by_cases hk : k < data.length
+      · exact hk
+      · rw [List.getElem?_eq_none (by omega)] at hx; cases hx
+    simp only [setIdx?, hk, if_true, Option.bind] at h
+    refine ⟨?_, hk⟩
+    have : ∀ (fill : List Nat) (d0 d : List UInt64), fill.foldlM (fun d j => setIdx? d j maxU64) d0 = some d → d.length = d0.length := by
+      intro fill
+      induction fill with
+      | nil => intro d0 d h; simp at h; subst h; rfl
+      | cons j fill ih =>
+        intro d0 d h
+        simp only [List.foldlM_cons, setIdx?] at h
+        by_cases hj : j < d0.length
+        · simp only [hj, if_true, Option.bind_eq_bind, Option.bind_some] at h
+          rw [ih _ _ h]; simp
+        · simp [hj] at h
+    rw [this fill _ d h]; simp
+
+theorem gio_begin_lit (g : GI) (k : Nat) (c : Int64) (hc : c = Int64.ofNat k) :
+    (Translated.groupInfoOf g).begin + c = Int64.ofNat (g.begin + k) := by
+  rw [hc, gio_begin_add]
+
+theorem bindE_doneM {σ α β : Type} (x : Go.M α) (s : σ) (f : α → σ → Res σ (Except Panic β)) :
+    (Res.done x s).bindE f = match x with | .ok a => f a s | .error e => .done (.error e) s := by
+  cases x <;> rfl
+
+theorem chain3 {σ β : Type} (s : σ) (data : List UInt64) (k j1 j2 j3 : Nat) (f : List UInt64 → σ → Res σ (Except Panic β)) :
+    ((Res.done (Go.idx data (Int64.ofNat k)) s).bindE fun e s' =>
+      (Res.done (Go.setIdx data (Int64.ofNat k) (fun _ => e - 1)) s').bindE fun d s' =>
+      (Res.done (Go.setIdx d (Int64.ofNat j1) (fun _ => (18446744073709551615 : UInt64))) s').bindE fun d s' =>
+      (Res.done (Go.setIdx d (Int64.ofNat j2) (fun _ => (18446744073709551615 : UInt64))) s').bindE fun d s' =>
+      (Res.done (Go.setIdx d (Int64.ofNat j3) (fun _ => (18446744073709551615 : UInt64))) s').bindE f)
+    = (Res.done (lowerT data k [j1, j2, j3]) s).bindE f := by
+  unfold lowerT
+  simp only [bindE_doneM, List.foldlM_cons, List.foldlM_nil]
+  cases Go.idx data (Int64.ofNat k) with
+  | error e => rfl
+  | ok e =>
+    simp only [bind, Except.bind]
+    cases Go.setIdx data (Int64.ofNat k) (fun _ => e - 1) with
+    | error e => rfl
+    | ok d =>
+      simp only
+      cases Go.setIdx d (Int64.ofNat j1) (fun _ => (18446744073709551615 : UInt64)) with
+      | error e => rfl
+      | ok d =>
+        simp only
+        cases Go.setIdx d (Int64.ofNat j2) (fun _ => (18446744073709551615 : UInt64)) with
+        | error e => rfl
+        | ok d =>
+          simp only
+          cases Go.setIdx d (Int64.ofNat j3) (fun _ => (18446744073709551615 : UInt64)) with
+          | error e => rfl
+          | ok d => rfl
+
+theorem chain2 {σ β : Type} (s : σ) (data : List UInt64) (k j1 j2 : Nat) (f : List UInt64 → σ → Res σ (Except Panic β)) :
+    ((Res.done (Go.idx data (Int64.ofNat k)) s).bindE fun e s' =>
+      (Res.done (Go.setIdx data (Int64.ofNat k) (fun _ => e - 1)) s').bindE fun d s' =>
+      (Res.done (Go.setIdx d (Int64.ofNat j1) (fun _ => (18446744073709551615 : UInt64))) s').bindE fun d s' =>
+      (Res.done (Go.setIdx d (Int64.ofNat j2) (fun _ => (18446744073709551615 : UInt64))) s').bindE f)
+    = (Res.done (lowerT data k [j1, j2]) s).bindE f := by
+  unfold lowerT
+  simp only [bindE_doneM, List.foldlM_cons, List.foldlM_nil]
+  cases Go.idx data (Int64.ofNat k) with
+  | error e => rfl
+  | ok e =>
+    simp only [bind, Except.bind]
+    cases Go.setIdx data (Int64.ofNat k) (fun _ => e - 1) with
+    | error e => rfl
+    | ok d =>
+      simp only
+      cases Go.setIdx d (Int64.ofNat j1) (fun _ => (18446744073709551615 : UInt64)) with
+      | error e => rfl
+      | ok d =>
+        simp only
+        cases Go.setIdx d (Int64.ofNat j2) (fun _ => (18446744073709551615 : UInt64)) with
+        | error e => rfl
+        | ok d => rfl
+
+theorem chain1 {σ β : Type} (s : σ) (data : List UInt64) (k j1 : Nat) (f : List UInt64 → σ → Res σ (Except Panic β)) :
+    ((Res.done (Go.idx data (Int64.ofNat k)) s).bindE fun e s' =>
+      (Res.done (Go.setIdx data (Int64.ofNat k) (fun _ => e - 1)) s').bindE fun d s' =>
+      (Res.done (Go.setIdx d (Int64.ofNat j1) (fun _ => (18446744073709551615 : UInt64))) s').bindE f)
+    = (Res.done (lowerT data k [j1]) s).bindE f := by
+  unfold lowerT
+  simp only [bindE_doneM, List.foldlM_cons, List.foldlM_nil]
+  cases Go.idx data (Int64.ofNat k) with
+  | error e => rfl
+  | ok e =>
+    simp only [bind, Except.bind]
+    cases Go.setIdx data (Int64.ofNat k) (fun _ => e - 1) with
+    | error e => rfl
+    | ok d =>
+      simp only
+      cases Go.setIdx d (Int64.ofNat j1) (fun _ => (18446744073709551615 : UInt64)) with
+      | error e => rfl
+      | ok d => rfl
+
+theorem idx_after_lower (data : List UInt64) (k : Nat) (fill : List Nat) (d : List UInt64) (hk : k < 2 ^ 62)
+    (h : lowerAt? data k fill = some d) : ∃ x, Go.idx d (Int64.ofNat k) = .ok x := by
+  obtain ⟨hl, hkl⟩ := lowerAt_length data k fill d h
+  refine ⟨d[k]'(by omega), ?_⟩
+  rw [idx_ofNat _ hk, List.getElem?_eq_getElem (by omega)]
+
+theorem tr_lowerFloatHack_loop {σ : Type} (o : Oracle σ) (wf : o.WF) :
+    ∀ (fuel fm i : Nat) (s : σ), fuel ≤ fm → i < 2 ^ 62 →
+      Agree (fun _ _ => True)
+        (SM.exec o (Translated.shrinker_lowerFloatHack_loop1 fuel (Int64.ofNat i)) s)
+        ((lowerFloatHack fm i).exec o s) := by
+  intro fuel
+  induction fuel with
+  | zero => intro fm i s _ _; simp [Translated.shrinker_lowerFloatHack_loop1, Agree]
+  | succ fuel ih =>
+    intro fm i s hfm hi62
+    obtain ⟨fm', rfl⟩ : ∃ fm', fm = fm' + 1 := ⟨fm - 1, by omega⟩
+    obtain ⟨hd, hgl, hgs⟩ := wf.small s
+    rw [Translated.shrinker_lowerFloatHack_loop1, lowerFloatHack]
+    sm_simp
+    rw [lt_glen _ hi62 (by simp; omega)]
+    simp only [List.length_map]
+    by_cases hlt : i < (o.view s).rc.groups.length
+    · simp only [hlt, decide_true]
+      have hg? : (o.view s).rc.groups[i]? = some (o.view s).rc.groups[i] := List.getElem?_eq_getElem hlt
+      generalize hgdef : (o.view s).rc.groups[i] = g at hg?
+      have hgm : g ∈ (o.view s).rc.groups := by rw [← hgdef]; exact List.getElem_mem hlt
+      have hgS := hgs g hgm
+      have hb := hgS.1
+      sm_simp
+      simp only [idx_groups _ hi62, hg?]
+      sm_simp
+      have hst : (Translated.groupInfoOf g).standalone = g.standalone := rfl
+      rw [hst, gio_end_ne_begin7 g hgS]
+      by_cases hskip : (!g.standalone || (g.end_ != (g.begin : Int) + 7)) = true
+      · simp only [hskip, if_true, i64_ofNat_succ]
+        exact ih fm' (i + 1) s (by omega) (by omega)
+      · have h7 : g.end_ = (g.begin : Int) + 7 := by
+          simp only [Bool.or_eq_true, not_or, bne_iff_ne, ne_eq, Decidable.not_not] at hskip
+          exact hskip.2
+        have he := hgS.2.2
+        simp only [hskip, Bool.false_eq_true, if_false]
+        sm_simp
+        simp only [List.nil_append, gio_begin_lit g 3 3 rfl, gio_begin_lit g 4 4 rfl, gio_begin_lit g 5 5 rfl, gio_begin_lit g 6 6 rfl]
+        rw [chain3, tr_lowerAt _ _ _ (by omega) (by intro j hj; simp at hj; omega)]
+        cases hl3 : lowerAt? (o.view s).rc.data (g.begin + 3) [g.begin + 4, g.begin + 5, g.begin + 6] with
+        | none => simp [Agree]
+        | some d3 =>
+          obtain ⟨x3, hx3⟩ := idx_after_lower _ _ _ d3 (by omega) hl3
+          sm_simp
+          simp only [hx3]
+          sm_simp
+          rw [Res.bindE_assoc]
+          refine Agree.bind_accept o d3 s ?_
+          intro a s1 _
+          cases a
+          · -- rejected: the significand
+            obtain ⟨hd1, _, _⟩ := wf.small s1
+            simp only [Bool.not_false, if_true]
+            sm_simp
+            rw [chain2, tr_lowerAt _ _ _ (by omega) (by intro j hj; simp at hj; omega)]
+            cases hl2 : lowerAt? (o.view s1).rc.data (g.begin + 4) [g.begin + 5, g.begin + 6] with
+            | none => simp [Agree]
+            | some d2 =>
+              obtain ⟨x2, hx2⟩ := idx_after_lower _ _ _ d2 (by omega) hl2
+              sm_simp
+              simp only [hx2]
+              sm_simp
+              simp only [Res.bindE_assoc]
+              refine Agree.bind_accept o d2 s1 ?_
+              intro a s2 _
+              cases a
+              · -- rejected: the fraction
+                simp only [Bool.not_false, if_true]
+                sm_simp
+                rw [chain1, tr_lowerAt _ _ _ (by omega) (by intro j hj; simp at hj; omega)]
+                cases hl1 : lowerAt? (o.view s2).rc.data (g.begin + 5) [g.begin + 6] with
+                | none => simp [Agree]
+                | some d1 =>
+                  obtain ⟨x1, hx1⟩ := idx_after_lower _ _ _ d1 (by omega) hl1
+                  sm_simp
+                  simp only [hx1]
+                  sm_simp
+                  simp only [Res.bindE_assoc]
+                  refine Agree.bind_accept o d1 s2 ?_
+                  intro a s3 _
+                  sm_simp
+                  rw [i64_ofNat_succ]
+                  exact ih fm' (i + 1) s3 (by omega) (by omega)
+              · simp only [Bool.not_true, Bool.false_eq_true, if_false]
+                sm_simp
+                rw [i64_ofNat_succ]
+                exact ih fm' (i + 1) s2 (by omega) (by omega)
+          · simp only [Bool.not_true, Bool.false_eq_true, if_false]
+            sm_simp
+            rw [i64_ofNat_succ]
+            exact ih fm' (i + 1) s1 (by omega) (by omega)
+    · simp only [hlt, decide_false]
+      sm_simp
+      exact Agree.done s trivial
+
+/-! ### `sortGroups` -/
+
+theorem slice_ofNat {α : Type} (l : List α) {a b : Nat} (ha : a < 2 ^ 62) (hb : b < 2 ^ 62) :
+    Go.slice l (Int64.ofNat a) (Int64.ofNat b) =
+      if a ≤ b ∧ b ≤ l.length then .ok ((l.take b).drop a) else .error .runtime := by
+  simp only [Go.slice, pos_ofNat ha, pos_ofNat hb]
+  by_cases h1 : a < l.length + 1
+  · by_cases h2 : b < l.length + 1
+    · simp only [h1, h2, if_true]
+      by_cases h3 : a ≤ b
+      · have : b ≤ l.length := by omega
+        simp [h3, this]
+      · simp [h3]
+    · have : ¬ (a ≤ b ∧ b ≤ l.length) := by omega
+      simp [h1, h2, this]
+  · have : ¬ (a ≤ b ∧ b ≤ l.length) := by omega
+    simp [h1, this]
+
+theorem gio_begin_nat (g : GI) : (Translated.groupInfoOf g).begin = Int64.ofNat g.begin := I_nat g.begin
+
+theorem gio_end_nat (g : GI) (h0 : 0 ≤ g.end_) : (Translated.groupInfoOf g).end_ = Int64.ofNat g.end_.toNat := by
+  have : (Translated.groupInfoOf g).end_ = I g.end_ := rfl
+  rw [this, ← I_nat, Int.toNat_of_nonneg h0]
+
+/-- the swap candidate of `sortGroups` as the source builds it -/
+def swapT (data : List UInt64) (g h : Translated.groupInfo) : Go.M (List UInt64) :=
+  (Go.sliceTo data h.begin) >>= fun s8 =>
+  (Go.slice data g.begin g.end_) >>= fun s10 =>
+  (Go.slice data h.end_ g.begin) >>= fun s12 =>
+  (Go.slice data h.begin h.end_) >>= fun s14 =>
+  (Go.sliceFrom data g.end_) >>= fun s16 =>
+  pure (((([] ++ s8) ++ s10) ++ s12) ++ s14 ++ s16)
+
+theorem tr_swapBuf (data : List UInt64) (g h : GI) (hg : g.Small) (hh : h.Small) (hg0 : 0 ≤ g.end_) (hh0 : 0 ≤ h.end_)
+    (hd : data.length < 2 ^ 62) :
+    swapT data (Translated.groupInfoOf g) (Translated.groupInfoOf h) =
+      match swapBuf? data g h with | some d => .ok d | none => .error .runtime := by
+  obtain ⟨gb, _, ge⟩ := hg
+  obtain ⟨hb, _, he⟩ := hh
+  have hge : g.end_.toNat < 2 ^ 62 := by omega
+  have hhe : h.end_.toNat < 2 ^ 62 := by omega
+  unfold swapT swapBuf?
+  rw [gio_begin_nat, gio_begin_nat, gio_end_nat g hg0, gio_end_nat h hh0]
+  rw [sliceTo_ofNat _ hb, slice_ofNat _ gb hge, slice_ofNat _ hhe gb, slice_ofNat _ hb hhe, sliceFrom_ofNat _ hge]
+  simp only [slice?]
+  generalize g.end_.toNat = ge' at *
+  generalize h.end_.toNat = he' at *
+  generalize g.begin = gb' at *
+  generalize h.begin = hb' at *
+  by_cases c1 : hb' ≤ data.length
+  · by_cases c2 : gb' ≤ ge' ∧ ge' ≤ data.length
+    · by_cases c3 : he' ≤ gb' ∧ gb' ≤ data.length
+      · by_cases c4 : hb' ≤ he' ∧ he' ≤ data.length
+        · have c5 : ge' ≤ data.length := c2.2
+          have c1' : 0 ≤ hb' ∧ hb' ≤ data.length := ⟨by omega, c1⟩
+          have c6 : ge' ≤ data.length ∧ data.length ≤ data.length := ⟨c5, Nat.le_refl _⟩
+          simp [c1, c2, c3, c4, c5, c1', c6, bind, Except.bind, pure, Except.pure]
+        · have c1' : 0 ≤ hb' ∧ hb' ≤ data.length := ⟨by omega, c1⟩
+          simp [c1, c2, c3, c4, c1', bind, Except.bind]
+      · have c1' : 0 ≤ hb' ∧ hb' ≤ data.length := ⟨by omega, c1⟩
+        simp [c1, c2, c3, c1', bind, Except.bind]
+    · have c1' : 0 ≤ hb' ∧ hb' ≤ data.length := ⟨by omega, c1⟩
+      simp [c1, c2, c1', bind, Except.bind]
+  · have c1' : ¬ (0 ≤ hb' ∧ hb' ≤ data.length) := by omega
+    simp [c1, c1', bind, Except.bind]
+
+theorem chainSwap {σ β : Type} (s : σ) (D : σ → List UInt64) (g h : Translated.groupInfo) (f : List UInt64 → σ → Res σ (Except Panic β)) :
+    ((Res.done (Go.sliceTo (D s) h.begin) s).bindE fun s8 s' =>
+      (Res.done (Go.slice (D s') g.begin g.end_) s').bindE fun s10 s' =>
+      (Res.done (Go.slice (D s') h.end_ g.begin) s').bindE fun s12 s' =>
+      (Res.done (Go.slice (D s') h.begin h.end_) s').bindE fun s14 s' =>
+      (Res.done (Go.sliceFrom (D s') g.end_) s').bindE fun s16 s' =>
+      f (((([] ++ s8) ++ s10) ++ s12) ++ s14 ++ s16) s')
+    = (Res.done (swapT (D s) g h) s).bindE f := by
+  unfold swapT
+  simp only [bindE_doneM]
+  cases Go.sliceTo (D s) h.begin with
+  | error e => rfl
+  | ok a =>
+    simp only [bind, Except.bind]
+    cases Go.slice (D s) g.begin g.end_ with
+    | error e => rfl
+    | ok b =>
+      simp only
+      cases Go.slice (D s) h.end_ g.begin with
+      | error e => rfl
+      | ok c =>
+        simp only
+        cases Go.slice (D s) h.begin h.end_ with
+        | error e => rfl
+        | ok d =>
+          simp only
+          cases Go.sliceFrom (D s) g.end_ with
+          | error e => rfl
+          | ok e => rfl
+
+theorem gio_end_gt_begin (h g : GI) (hh : h.Small) (hg : g.Small) :
+    decide ((Translated.groupInfoOf h).end_ > (Translated.groupInfoOf g).begin) = decide (h.end_ > (g.begin : Int)) := by
+  obtain ⟨_, h1, h2⟩ := hh
+  have e1 : (Translated.groupInfoOf h).end_ = I h.end_ := rfl
+  have e2 : (Translated.groupInfoOf g).begin = I (g.begin : Int) := rfl
+  rw [e1, e2]
+  simp only [gt_iff_lt, Int64.lt_iff_toInt_lt, I_toInt (x := h.end_) (by omega) h2, I_toInt (x := (g.begin : Int)) (by omega) (by have := hg.1; omega)]
+
+def negOne : Int64 := Int64.ofNat 0 - 1
+
+theorem negOne_not_ge : decide (negOne ≥ (0 : Int64)) = false := by decide
+
+/-- the scan of `sortGroups` for a group to swap `g` with: `for j--; j >= 0; j--` -/
+theorem tr_sortScan {σ : Type} (o : Oracle σ) (wf : o.WF) (g : GI) (hgS : g.Small) (hg0 : 0 ≤ g.end_) (j_ : Int64) :
+    ∀ (fuel n : Nat) (s : σ), n < 2 ^ 62 →
+      Agree (fun (t : Int64) (b : Option Nat) => (t = match b with | some j' => Int64.ofNat j' | none => negOne) ∧ ∀ j', b = some j' → j' < n)
+        (SM.exec o (Translated.shrinker_sortGroups_loop3 (Translated.groupInfoOf g) j_ fuel (Int64.ofNat n - 1)) s)
+        ((sortScan g n).exec o s) := by
+  intro fuel
+  induction fuel with
+  | zero => intro n s _; simp [Translated.shrinker_sortGroups_loop3, Agree]
+  | succ fuel ih =>
+    intro n s hn
+    obtain ⟨hd, hgl, hgs⟩ := wf.small s
+    cases n with
+    | zero =>
+      rw [Translated.shrinker_sortGroups_loop3, sortScan]
+      have : Int64.ofNat 0 - 1 = negOne := rfl
+      rw [this, negOne_not_ge]
+      sm_simp
+      exact Agree.done s ⟨rfl, by intro j' h; cases h⟩
+    | succ j =>
+      have hj62 : j < 2 ^ 62 := by omega
+      rw [Translated.shrinker_sortGroups_loop3, sortScan, i64_ofNat_succ_sub_one, i64_ofNat_nonneg hj62]
+      sm_simp
+      simp only [idx_groups _ hj62]
+      cases hh? : (o.view s).rc.groups[j]? with
+      | none => sm_simp; simp [Agree]
+      | some h =>
+        have hhm : h ∈ (o.view s).rc.groups := List.mem_of_getElem? hh?
+        have hhS := hgs h hhm
+        sm_simp
+        have hst : (Translated.groupInfoOf h).standalone = h.standalone := rfl
+        have hlb : ((Translated.groupInfoOf h).label != (Translated.groupInfoOf g).label) = (h.label != g.label) := rfl
+        rw [hst, gio_end_neg h hhS, gio_end_gt_begin h g hhS hgS, hlb]
+        have hprev : Int64.ofNat j - 1 = Int64.ofNat j - 1 := rfl
+        by_cases hskip : (!h.standalone || decide (h.end_ < 0) || decide (h.end_ > (g.begin : Int)) || (h.label != g.label)) = true
+        · simp only [hskip, if_true]
+          exact (ih j s hj62).mono (fun t b h => ⟨h.1, fun j' hj' => Nat.lt_succ_of_lt (h.2 j' hj')⟩)
+        · simp only [hskip, Bool.false_eq_true, if_false]
+          have hh0 : 0 ≤ h.end_ := by
+            simp only [Bool.or_eq_true, Bool.not_eq_true', decide_eq_true_eq, not_or] at hskip
+            omega
+          sm_simp
+          have e := chainSwap s (fun s => (o.view s).rc.data) (Translated.groupInfoOf g) (Translated.groupInfoOf h)
+            (fun buf s' => (SM.exec o (SM.accept buf) s').bindE fun a s' =>
+              SM.exec o (if a = true then pure (Int64.ofNat j)
+                else Translated.shrinker_sortGroups_loop3 (Translated.groupInfoOf g) j_ fuel (Int64.ofNat j - 1)) s')
+          try dsimp only at e
+          rw [e, tr_swapBuf _ g h hgS hhS hg0 hh0 hd]
+          cases hsw : swapBuf? (o.view s).rc.data g h with
+          | none => simp [Agree]
+          | some buf =>
+            sm_simp
+            refine Agree.bind_accept o buf s ?_
+            intro a s' _
+            cases a
+            · sm_simp
+              exact (ih j s' hj62).mono (fun t b h => ⟨h.1, fun j' hj' => Nat.lt_succ_of_lt (h.2 j' hj')⟩)
+            · sm_simp
+              exact Agree.done s' ⟨rfl, by intro j' h; cases h; exact Nat.lt_succ_self _⟩
+
+theorem negOne_not_pos : decide (negOne > (0 : Int64)) = false := by decide
+
+theorem i64_ofNat_pos {n : Nat} (hn : n < 2 ^ 62) : decide (Int64.ofNat n > (0 : Int64)) = decide (n > 0) := by
+  have h0 : (0 : Int64) = Int64.ofNat 0 := rfl
+  rw [h0, i64_gt_ofNat hn 0 (by omega)]
+
+/-- `for j := i; j > 0 && j < len(s.rec.groups); { … }` of `sortGroups`, entered with `j` or with -1 (the scan found nothing) -/
+theorem tr_sortFrom {σ : Type} (o : Oracle σ) (wf : o.WF) :
+    ∀ (fuel fm : Nat) (jT : Int64) (b : Option Nat) (s : σ), fuel ≤ fm →
+      (jT = match b with | some j => Int64.ofNat j | none => negOne) → (∀ j, b = some j → j < 2 ^ 62) →
+      Agree (fun _ _ => True)
+        (SM.exec o (Translated.shrinker_sortGroups_loop2 fuel jT) s)
+        ((match b with | some j => sortFrom fm j | none => (pure () : Script Unit)).exec o s) := by
+  intro fuel
+  induction fuel with
+  | zero => intro fm jT b s _ _ _; simp [Translated.shrinker_sortGroups_loop2, Agree]
+  | succ fuel ih =>
+    intro fm jT b s hf hj hb
+    obtain ⟨hd, hgl, hgs⟩ := wf.small s
+    obtain ⟨fm', rfl⟩ : ∃ fm', fm = fm' + 1 := ⟨fm - 1, by omega⟩
+    cases b with
+    | none =>
+      subst hj
+      rw [Translated.shrinker_sortGroups_loop2]
+      sm_simp
+      rw [negOne_not_pos]
+      sm_simp
+      exact Agree.done s trivial
+    | some j =>
+      have hj62 := hb j rfl
+      simp only at hj
+      subst hj
+      rw [Translated.shrinker_sortGroups_loop2]
+      simp only [sortFrom]
+      sm_simp
+      rw [i64_ofNat_pos hj62]
+      by_cases hpos : j > 0
+      · simp only [hpos, decide_true]
+        sm_simp
+        rw [lt_glen _ hj62 (by simp; omega)]
+        simp only [List.length_map]
+        by_cases hlt : j < (o.view s).rc.groups.length
+        · have hcond : (j > 0 ∧ j < (o.view s).rc.groups.length) := ⟨hpos, hlt⟩
+          simp only [hlt, decide_true, hcond, and_self, if_true]
+          have hg? : (o.view s).rc.groups[j]? = some (o.view s).rc.groups[j] := List.getElem?_eq_getElem hlt
+          generalize hgdef : (o.view s).rc.groups[j] = g at hg?
+          have hgm : g ∈ (o.view s).rc.groups := by rw [← hgdef]; exact List.getElem_mem hlt
+          have hgS := hgs g hgm
+          sm_simp
+          simp only [idx_groups _ hj62, hg?]
+          sm_simp
+          have hst : (Translated.groupInfoOf g).standalone = g.standalone := rfl
+          rw [hst, gio_end_neg g hgS]
+          by_cases hskip : (!g.standalone || decide (g.end_ < 0)) = true
+          · simp only [hskip, if_true]
+            sm_simp
+            exact Agree.done s trivial
+          · simp only [hskip, Bool.false_eq_true, if_false]
+            have h0 : 0 ≤ g.end_ := by
+              simp only [Bool.or_eq_true, Bool.not_eq_true', decide_eq_true_eq, not_or] at hskip
+              omega
+            sm_simp
+            refine Agree.bind (tr_sortScan o wf g hgS h0 (Int64.ofNat j) fuel j s hj62) ?_
+            intro t b' s' htb
+            have hb' : ∀ j', b' = some j' → j' < 2 ^ 62 := by
+              intro j' hj'
+              have := htb.2 j' hj'
+              omega
+            have := ih fm' t b' s' (by omega) htb.1 hb'
+            cases b' with
+            | none => exact this
+            | some j' => exact this
+        · have hcond : ¬ (j > 0 ∧ j < (o.view s).rc.groups.length) := by omega
+          simp only [hlt, decide_false, hcond, if_false]
+          sm_simp
+          exact Agree.done s trivial
+      · have hcond : ¬ (j > 0 ∧ j < (o.view s).rc.groups.length) := by omega
+        simp only [hpos, decide_false, hcond, if_false]
+        sm_simp
+        exact Agree.done s trivial
+
+theorem tr_sortGroups_loop {σ : Type} (o : Oracle σ) (wf : o.WF) :
+    ∀ (fuel fm i : Nat) (s : σ), fuel ≤ fm → i < 2 ^ 62 →
+      Agree (fun _ _ => True)
+        (SM.exec o (Translated.shrinker_sortGroups_loop1 fuel (Int64.ofNat i)) s)
+        ((sortGroups fm i).exec o s) := by
+  intro fuel
+  induction fuel with
+  | zero => intro fm i s _ _; simp [Translated.shrinker_sortGroups_loop1, Agree]
+  | succ fuel ih =>
+    intro fm i s hfm hi62
+    obtain ⟨fm', rfl⟩ : ∃ fm', fm = fm' + 1 := ⟨fm - 1, by omega⟩
+    obtain ⟨hd, hgl, hgs⟩ := wf.small s
+    rw [Translated.shrinker_sortGroups_loop1, sortGroups]
+    sm_simp
+    rw [lt_glen _ hi62 (by simp; omega)]
+    simp only [List.length_map]
+    by_cases hlt : i < (o.view s).rc.groups.length
+    · simp only [hlt, decide_true, if_true]
+      sm_simp
+      refine Agree.bind (tr_sortFrom o wf fuel (fm' + 1) (Int64.ofNat i) (some i) s (by omega) rfl (by intro j h; cases h; exact hi62)) ?_
+      intro _ _ s' _
+      rw [i64_ofNat_succ]
+      exact ih fm' (i + 1) s' (by omega) (by omega)
+    · simp only [hlt, decide_false, if_false]
+      sm_simp
+      exact Agree.done s trivial
+
+/-! ### the passes as called by the round loop, and the round loop -/
+
+theorem i64_zero_ofNat : (0 : Int64) = Int64.ofNat 0 := rfl
+theorem i64_one_ofNat : (1 : Int64) = Int64.ofNat 1 := rfl
+
+theorem Res.bind_unit {σ : Type} (r : Res σ Unit) : (r.bind fun _ s => Res.done () s) = r := by
+  cases r <;> rfl
+
+/-- a translated loop followed by `pure ()` against the model's pass -/
+theorem Agree.unit_tail {σ α : Type} {rt : Res σ (Except Panic α)} {rm : Res σ Unit} (h : Agree (fun _ _ => True) rt rm) :
+    Agree (fun _ _ => True) (rt.bindE fun _ s' => (Res.done (.ok ()) s' : Res σ (Except Panic Unit))) rm := by
+  have := Agree.bind (R' := fun (_ : Unit) (_ : Unit) => True) h
+    (ft := fun _ s' => (Res.done (.ok ()) s' : Res σ (Except Panic Unit))) (fm := fun _ s' => Res.done () s')
+    (fun _ _ s' _ => Agree.done s' trivial)
+  rw [Res.bind_unit] at this
+  exact this
+
+theorem tr_removeGroups {σ : Type} (o : Oracle σ) (wf : o.WF) (fuel fm : Nat) (h : fuel ≤ fm) (s : σ) :
+    Agree (fun _ _ => True) (SM.exec o (Translated.shrinker_removeGroups fuel) s) ((removeGroups fm 0).exec o s) := by
+  unfold Translated.shrinker_removeGroups
+  sm_simp
+  rw [i64_zero_ofNat]
+  exact (tr_removeGroups_loop o wf fuel fm 0 s h (by omega)).unit_tail
+
+theorem tr_lowerFloatHack {σ : Type} (o : Oracle σ) (wf : o.WF) (fuel fm : Nat) (h : fuel ≤ fm) (s : σ) :
+    Agree (fun _ _ => True) (SM.exec o (Translated.shrinker_lowerFloatHack fuel) s) ((lowerFloatHack fm 0).exec o s) := by
+  unfold Translated.shrinker_lowerFloatHack
+  sm_simp
+  rw [i64_zero_ofNat]
+  exact (tr_lowerFloatHack_loop o wf fuel fm 0 s h (by omega)).unit_tail
+
+theorem tr_removeGroupsAndLower {σ : Type} (o : Oracle σ) (wf : o.WF) (fuel fm : Nat) (h : fuel ≤ fm) (s : σ) :
+    Agree (fun _ _ => True) (SM.exec o (Translated.shrinker_removeGroupsAndLower fuel) s) ((removeGroupsAndLower fm 0).exec o s) := by
+  unfold Translated.shrinker_removeGroupsAndLower
+  sm_simp
+  rw [i64_zero_ofNat]
+  exact (tr_removeGroupsAndLower_loop o wf fuel fm 0 s h (by omega)).unit_tail
+
+theorem tr_sortGroups {σ : Type} (o : Oracle σ) (wf : o.WF) (fuel fm : Nat) (h : fuel ≤ fm) (s : σ) :
+    Agree (fun _ _ => True) (SM.exec o (Translated.shrinker_sortGroups fuel) s) ((sortGroups fm 1).exec o s) := by
+  unfold Translated.shrinker_sortGroups
+  sm_simp
+  rw [i64_one_ofNat]
+  exact (tr_sortGroups_loop o wf fuel fm 1 s h (by omega)).unit_tail
+
+theorem tr_removeGroupSpans {σ : Type} (o : Oracle σ) (wf : o.WF) (fuel fm : Nat) (h : fuel ≤ fm) (s : σ) :
+    Agree (fun _ _ => True) (SM.exec o (Translated.shrinker_removeGroupSpans fuel) s) ((removeGroupSpans fm 0).exec o s) := by
+  unfold Translated.shrinker_removeGroupSpans
+  sm_simp
+  rw [i64_zero_ofNat]
+  exact (tr_removeGroupSpans_loop o wf fuel fm 0 s h (by omega)).unit_tail
+
+/-- the statement about `minimizeBlocks` the round loop needs -/
+def MinimizeBlocksAgree {σ : Type} (o : Oracle σ) : Prop :=
+  ∀ (fuel fm : Nat) (s : σ), fuel ≤ fm →
+    Agree (fun _ _ => True) (SM.exec o (Translated.shrinker_minimizeBlocks fuel) s) ((minimizeBlocks fm 0).exec o s)
+
+theorem shrinks_gt (n : Nat) (hn : n < 2 ^ 62) (prev : Int) (h1 : -1 ≤ prev) (h2 : prev < 2 ^ 62) :
+    decide (Int64.ofNat n > I prev) = decide ((n : Int) > prev) := by
+  simp only [gt_iff_lt, Int64.lt_iff_toInt_lt, I_toInt (x := prev) (by omega) h2, i64_ofNat_toInt hn]
+
+theorem shrinks_beq (n m : Nat) (hn : n < 2 ^ 62) (hm : m < 2 ^ 62) : (Int64.ofNat n == Int64.ofNat m) = (n == m) := by
+  by_cases h : n = m
+  · subst h; simp
+  · have : Int64.ofNat n ≠ Int64.ofNat m := by
+      intro e
+      have := congrArg Int64.toInt e
+      rw [i64_ofNat_toInt hn, i64_ofNat_toInt hm] at this
+      exact h (by exact_mod_cast this)
+    rw [beq_false_of_ne this, beq_false_of_ne h]
+
+/-- **the round loop of `shrinker.shrink`** -/
+theorem tr_rounds {σ : Type} (o : Oracle σ) (wf : o.WF) (hsh : ∀ s, (o.view s).shrinks < 2 ^ 62) (hmb : MinimizeBlocksAgree o) (F : Nat) :
+    ∀ (fuel r : Nat) (iT : Int64) (prev : Int) (s : σ), fuel ≤ r → fuel ≤ F → -1 ≤ prev → prev < 2 ^ 62 →
+      Agree (fun _ _ => True)
+        (SM.exec o (Translated.shrinker_shrink_loop1 fuel iT (I prev)) s)
+        ((rounds F r prev).exec o s) := by
+  intro fuel
+  induction fuel with
+  | zero => intro r iT prev s _ _ _ _; simp [Translated.shrinker_shrink_loop1, Agree]
+  | succ fuel ih =>
+    intro r iT prev s hr hF h1 h2
+    obtain ⟨r', rfl⟩ : ∃ r', r = r' + 1 := ⟨r - 1, by omega⟩
+    rw [Translated.shrinker_shrink_loop1, rounds]
+    sm_simp
+    rw [shrinks_gt _ (hsh s) prev h1 h2]
+    by_cases hgt : ((o.view s).shrinks : Int) > prev
+    · simp only [hgt, decide_true, if_true]
+      sm_simp
+      refine Agree.bind (tr_removeGroups o wf fuel F (by omega) s) ?_
+      intro _ _ s1 _
+      refine Agree.bind (hmb fuel F s1 (by omega)) ?_
+      intro _ _ s2 _
+      sm_simp
+      rw [shrinks_beq _ _ (hsh s2) (hsh s)]
+      have hprev : Int64.ofNat (o.view s).shrinks = I ((o.view s).shrinks : Int) := (I_nat _).symm
+      by_cases heq : ((o.view s2).shrinks == (o.view s).shrinks) = true
+      · simp only [heq, if_true]
+        sm_simp
+        simp only [Res.bindE_assoc]
+        refine Agree.bind (tr_lowerFloatHack o wf fuel F (by omega) s2) ?_
+        intro _ _ s3 _
+        refine Agree.bind (tr_removeGroupsAndLower o wf fuel F (by omega) s3) ?_
+        intro _ _ s4 _
+        refine Agree.bind (tr_sortGroups o wf fuel F (by omega) s4) ?_
+        intro _ _ s5 _
+        refine Agree.bind (tr_removeGroupSpans o wf fuel F (by omega) s5) ?_
+        intro _ _ s6 _
+        sm_simp
+        rw [hprev]
+        exact ih r' _ _ s6 (by omega) (by omega) (by omega) (by have := hsh s; omega)
+      · simp only [heq, Bool.false_eq_true, if_false]
+        sm_simp
+        rw [hprev]
+        exact ih r' _ _ s2 (by omega) (by omega) (by omega) (by have := hsh s; omega)
+    · simp only [hgt, decide_false, Bool.false_eq_true, if_false]
       sm_simp
       exact Agree.done s trivial
 
